@@ -1126,24 +1126,30 @@ func (f *Frame) scanCallMods(ci ssa.CallInstruction, lm *loopMods, depth int) {
 			lm.tok = true
 			if !staticallyFresh(c.Args[0], map[ssa.Value]bool{}) {
 				lm.nonFresh = true
+				lm.curDirty = true
 				if hasPtrComps(under(c.Args[0].Type()).(*types.Slice).Elem()) {
 					lm.escape = true
 				}
 			}
 			lm.addType(under(c.Args[0].Type()).(*types.Slice).Elem(), false)
+			lm.curDirty = false
 		case "copy":
 			lm.tok = true
 			if !staticallyFresh(c.Args[0], map[ssa.Value]bool{}) {
 				lm.nonFresh = true
+				lm.curDirty = true
 				if hasPtrComps(under(c.Args[0].Type()).(*types.Slice).Elem()) {
 					lm.escape = true
 				}
 			}
 			lm.addType(under(c.Args[0].Type()).(*types.Slice).Elem(), false)
+			lm.curDirty = false
 		case "delete":
 			lm.tok = true
 			lm.nonFresh = true
+			lm.curDirty = true
 			lm.addMap(c.Args[0].Type())
+			lm.curDirty = false
 		case "clear":
 			lm.all = true
 		}
@@ -1189,11 +1195,14 @@ func (f *Frame) scanCalleeMods(callee *ssa.Function, lm *loopMods, depth int) bo
 			return false
 		}
 		lm.alloc = true
+		lm.curDirty = true
 		for _, m := range ct.Modifies {
 			if !staticMod(callee, m, lm) {
+				lm.curDirty = false
 				return false
 			}
 		}
+		lm.curDirty = false
 		if len(ct.Modifies) > 0 {
 			lm.tok = true
 			lm.nonFresh, lm.escape = true, true
